@@ -907,9 +907,11 @@ func EscapeTagKey(v string) string {
 
 func EscapeTagValue(v string) string {
 	if v == "" {
-		return ""
+		return `""`
 	}
-	escape := (v[0] < 'a' && v[0] > 'z') && (v[0] < 'A' && v[0] > 'Z') && v[0] != '_'
+	// Only a value that lexes as a symbol can be left unquoted, and the
+	// lexer only starts a symbol with a letter.
+	escape := !((v[0] >= 'a' && v[0] <= 'z') || (v[0] >= 'A' && v[0] <= 'Z'))
 	if !escape {
 		for _, r := range v[1:] {
 			if escape = !isValidSymbolRune(r); escape {
